@@ -405,8 +405,14 @@ impl Property for Algebra {
             for i in 0..8 {
                 d[4 * i..4 * i + 4].copy_from_slice(&st[i].to_le_bytes());
             }
-            if s.digest() != d || Setsum::from_hexdigest(&s.hexdigest()).map(|x| x.digest()) != Some(d) {
-                o.fail("digest-roundtrip", format!("digest {} does not round-trip", hex(&d)));
+            // A setsum's own digest and hex digest round-trip exactly.  For arbitrary bytes with a
+            // column >= its prime an implementation may reduce on input: only residues are demanded.
+            let back = Setsum::from_digest(s.digest());
+            let hexback = Setsum::from_hexdigest(&s.hexdigest());
+            let canon = (0..8).all(|i| (st[i] as u64) < PRIMES[i]);
+            let exact = s.digest() == d;
+            if back != *s || hexback != Some(*s) || (canon && !exact) || residues(s) != to_ref(*st) {
+                o.fail("digest-roundtrip", format!("digest {} does not round-trip (from_digest(x).digest() = {}, hex {:?})", hex(&d), hex(&s.digest()), s.hexdigest()));
                 return o;
             }
         }
